@@ -80,7 +80,9 @@ def build(tier):
     if tier == "quick":
         combos = [("s8", "wrd"), ("s64", "wrd"), ("u8", "wrd"), ("s8", "cop")]
     else:
-        combos = [(t, p) for t in ("s8", "s16", "s32", "s64", "u8", "u16", "u32", "u64") for p in ("wrd", "cop")] + [("sll", "wrd"), ("s32", "bic"), ("s64", "bic"), ("s8", "ext")]
+        combos = [(t, p) for t in ("s8", "s16", "s32", "s64", "u8", "u16", "u32", "u64") for p in ("wrd", "cop")] + [("sll", "wrd"), ("s8", "ext")]
+        # Bounded_Integer_Coefficient_Policy only exists in builds configured with native / checked integer coefficients
+        # (Coefficient_types.hh); /repo is configured with GMP coefficients, so there is nothing to instantiate it with here
     for (tt, pp) in combos:
         u = unit_for(tt, pp); units.append(u)
         w = TYPES[tt][1]
@@ -88,7 +90,7 @@ def build(tier):
             for ext in (False, True):
                 if ext and pp in ("cop", "bic") : continue     # no specials to handle: the ext layer is the native layer
                 if w == 64 and not TYPES[tt][2] and op in HEAVY | {"mul_2exp"}: continue   # unsigned 64 bit: exact products need more than the 128-bit spec arithmetic (not covered, stated)
-                if w >= 32 and op in HEAVY:
+                if (w >= 32 and op in HEAVY) or (tt == "u16" and op in ("div", "idiv", "rem")):   # (the unsigned 16-bit dividers exceed 15 min on the full domain)
                     # wide multiplication / division circuits are beyond every installed SAT back end on the full domain
                     # (DESIGN.md section 2.6): bounded stand-ins, one operand at a time restricted to |v| < 2^B, labelled bounded
                     if ext: continue
@@ -104,7 +106,7 @@ def build(tier):
                     if w == 64 and op in ("div", "idiv", "rem"): continue   # 64-bit divider: no back end finishes even for constant divisors (not covered, stated)
                     if w == 64 and op in ("add_mul", "sub_mul") and tier == "quick": continue   # ~13 min each: thorough tier only
                     # (with the FIRST operand constant and the second free, `MAX / y' needs a full divider: does not finish at 32 or 64 bit)
-                    tasks.append(op_task(u, tt, pp, op, ar, ext, extra_pre=among("y"), tag="bounded-y", bounded={"note": "second operand " + note + "; first operand and accumulator arbitrary"}, timeout=1500))
+                    tasks.append(op_task(u, tt, pp, op, ar, ext, extra_pre=among("y"), tag="bounded-y", bounded={"note": "second operand " + note + "; first operand and accumulator arbitrary"}, timeout=3400 if w == 64 else 1500))
                     continue
                 tasks.append(op_task(u, tt, pp, op, ar, ext))
         for (op, ar, ext) in PREDS:
